@@ -245,3 +245,56 @@ def expand_expression_methods(klass, node, depth=2):
     for _ in range(depth):
         out = T().visit(out)
     return out
+
+
+def format_template(node):
+    """Canonical form of a string built by ``'..%s..' % args``, ``'..{}..'.format(args)`` or an f-string:
+    (template with ``{}`` / ``{:spec}`` placeholders, [argument texts]); None if ``node`` is none of these.
+    A plain string constant is its own template with no arguments."""
+    import re
+    if isinstance(node, ast.Constant) and isinstance(node.value, str):
+        return node.value, []
+    if isinstance(node, ast.JoinedStr):
+        t, args = '', []
+        for v in node.values:
+            if isinstance(v, ast.Constant):
+                t += str(v.value).replace('{', '{{').replace('}', '}}')
+            elif isinstance(v, ast.FormattedValue):
+                spec = ''
+                if v.format_spec is not None:
+                    if not all(isinstance(x, ast.Constant) for x in v.format_spec.values):
+                        return None
+                    spec = ''.join(str(x.value) for x in v.format_spec.values)
+                conv = {115: '!s', 114: '!r', 97: '!a'}.get(v.conversion, '')
+                t += '{%s%s}' % (conv, (':' + spec) if spec else '')
+                args.append(norm(v.value))
+        return t, args
+    if isinstance(node, ast.Call) and isinstance(node.func, ast.Attribute) and node.func.attr == 'format' and isinstance(node.func.value, ast.Constant) \
+            and isinstance(node.func.value.value, str) and not node.keywords:
+        txt = node.func.value.value
+        args, out, pos, auto = [], '', 0, 0
+        for mt in re.finditer(r'\{(\d*)((?:![sra])?)((?::[^{}]*)?)\}', txt):
+            out += txt[pos:mt.start()]
+            idx = int(mt.group(1)) if mt.group(1) else auto
+            auto += 1
+            if idx >= len(node.args):
+                return None
+            args.append(norm(node.args[idx]))
+            out += '{%s%s}' % (mt.group(2), mt.group(3) if mt.group(3) != ':' else '')
+            pos = mt.end()
+        return out + txt[pos:], args
+    if isinstance(node, ast.BinOp) and isinstance(node.op, ast.Mod) and isinstance(node.left, ast.Constant) and isinstance(node.left.value, str):
+        txt = node.left.value
+        vals = list(node.right.elts) if isinstance(node.right, ast.Tuple) else [node.right]
+        args, out, pos, i = [], '', 0, 0
+        for mt in re.finditer(r'%(0?)(\d*)([sdXxrf])', txt):
+            out += txt[pos:mt.start()].replace('{', '{{').replace('}', '}}')
+            if i >= len(vals):
+                return None
+            args.append(norm(vals[i]))
+            i += 1
+            spec = mt.group(1) + mt.group(2) + (mt.group(3) if mt.group(3) not in 'sr' else '')
+            out += '{%s%s}' % ('!r' if mt.group(3) == 'r' else '', (':' + spec) if spec else '')
+            pos = mt.end()
+        return out + txt[pos:].replace('{', '{{').replace('}', '}}'), args
+    return None
